@@ -447,3 +447,52 @@ func verifHosts(l *roundRobinLoadBalancer) []*Host { return l.hosts.Load().([]*H
 //@   ensures keyspace: err == nil && p.config.Keyspace != "" ==> $ccKsTried && $ccKsOK && $ccKs == p.config.Keyspace
 //@   ensures failure: err != nil ==> conn == nil
 //@   modifies *
+
+// ---------------------------------------------------------------------------------------------
+// C14 (cluster side): every schema-change event taken from the control connection's event channel
+// is handed to the listeners, whatever else is pending. The control loop is checked per iteration:
+//   $evTaken / $evMsg   an event was taken from c.events in this iteration, and its message
+//   $evFwd              a listener was called with it
+// ---------------------------------------------------------------------------------------------
+
+//@ func proxycore.Cluster.reconnect
+//@   trusted
+//@   modifies *
+//@ func proxycore.Cluster.refreshHosts
+//@   trusted
+//@   modifies *
+//@ func proxycore.Cluster.setOutageTime
+//@   trusted
+//@   modifies *
+// Listeners (the proxy, sessions, the load balancer) change their own state, not the cluster's.
+//@ iface proxycore.ClusterListener.OnEvent
+//@   preserves-type proxycore.Cluster
+//@   modifies *
+//@ iface proxycore.ReconnectPolicy.Clone
+//@   ensures result != nil
+//@   modifies nothing
+//@ iface proxycore.ReconnectPolicy.NextDelay
+//@   modifies *
+//@ iface proxycore.ReconnectPolicy.Reset
+//@   modifies *
+
+//@ func proxycore.getOrUseDefault
+//@   ensures result == ite(time == 0, def, time)
+//@   modifies nothing
+
+//@ loop proxycore.Cluster.stayConnected #1
+//@   invariant $evTaken && typeis($evMsg, *message.SchemaChangeEvent) && $evListeners > 0 ==> $evFwd
+//@ loop proxycore.Cluster.stayConnected #3
+//@   invariant $evTaken && typeis($evMsg, *message.SchemaChangeEvent)
+//@   invariant rangeindex >= 0 ==> $evFwd
+//@   invariant $evListeners == len(c.listeners)
+
+//@ func proxycore.Cluster.stayConnected [C14]
+//@   local $evTaken bool = false
+//@   local $evFwd bool = false
+//@   local $evMsg message.Message = nil
+//@   local $evListeners int = 0
+//@   requires c != nil && c.config.ReconnectPolicy != nil
+//@   after proxycore.getOrUseDefault#* set $evTaken = true; $evFwd = false; $evMsg = event.Body.Message; $evListeners = len(c.listeners)
+//@   before proxycore.ClusterListener.OnEvent#* set $evFwd = true
+//@   modifies *
